@@ -377,6 +377,7 @@ def evaluate(ctx, cases):
         nops = sum(len(p) for p in c['programs'])
         ctx.count(('sched', c['mode'], c['seed'], c['version']), nontrivial=True, n=nops)
         ctx.dist('mode', c['mode'])
+        ctx.dist('family', c.get('family', 'mixed pool'))
         ctx.dist('threads', len(c['programs']))
         if o['switches'] is not None:
             ctx.dist('forced switches per run', '<100' if o['switches'] < 100 else '<1000' if o['switches'] < 1000 else '>=1000')
@@ -440,6 +441,25 @@ def gen(ctx):
         mode = 'controlled' if i % 4 else 'free'
         cases.append({'seed': seed, 'version': '1.1' if i % 3 else '1.0', 'docs': docs, 'programs': programs, 'mode': mode,
                       'p': r.choice([0.002, 0.01, 0.05, 0.2])})
+    # focused families: (a) every thread goes through the per-schema scratch context, (b) every thread meets the first use
+    # of an xsi:type inside an identity scope (registration of the identity elements) with duplicated values
+    for i in range(30 if q else 300):
+        seed = ctx.rng.randrange(10 ** 9)
+        r = random.Random(seed)
+        n = r.randint(2, 4)
+        if i % 2:
+            docs = [c10.gen_doc(r)]
+            programs = [[['simple_scratch', 0, r.randint(0, 7)] for _ in range(r.randint(1, 3))] for _ in range(n)]
+        else:
+            docs = []
+            while len(docs) < 3:
+                d = c10.gen_doc(r)
+                if d['root'] in ('R', 'R2') and 'xsi:type="B"' in d['xml'] or 'xsi:type="C"' in d['xml']:
+                    docs.append(d)
+            programs = [[[r.choice(['decode_lax', 'iter_errors', 'is_valid']), r.randrange(len(docs)), 0] for _ in range(r.randint(1, 2))]
+                        for _ in range(n)]
+        cases.append({'seed': seed, 'version': '1.1' if i % 3 else '1.0', 'docs': docs, 'programs': programs, 'mode': 'controlled',
+                      'p': r.choice([0.05, 0.2, 0.5]), 'family': 'scratch' if i % 2 else 'registration'})
     return cases
 
 
